@@ -1,6 +1,6 @@
 (* C12 — strand symmetry: reverse-complemented inputs give the reverse complement.
    Statements only. *)
-From MV Require Import Base RotLemmas Record RecordLemmas Regex Typing TypingLemmas Anchors Canonical Assembly StrandLemmas.
+From MV Require Import Base RotLemmas Record RecordLemmas Regex Typing TypingLemmas Anchors Canonical Assembly StrandLemmas Pipeline EndToEnd StrandIff.
 Local Open Scope nat_scope.
 
 (* the recognition site occurs once on the reverse complement iff its reverse complement
@@ -76,6 +76,70 @@ Theorem C12_assembly : forall (v : svec) (cs ms : list smod),
   same_codes w' (rotl (Z.of_nat (length (rc (svbody v)))) (rc w)).
 Proof. exact strand_assembly. Qed.
 Print Assumptions C12_assembly.
+
+(* THE IFF, for ANY record (not only the plasmids of the formal definition): a circle carrying the
+   recognition site and its reverse complement once each is accepted by the generic module class
+   iff its reverse complement is; when it is, the reverse complement reports the overhangs
+   exchanged and reverse-complemented and the target body reverse-complemented *)
+Theorem C12_module_iff : forall e s, 0 < length (esite e) ->
+  occurs_once (esite e) s -> occurs_once (rc_codes (esite e)) s ->
+  is_valid (C RModule e (module_structure e)) (rc s) true = is_valid (C RModule e (module_structure e)) s true.
+Proof. exact strand_module_iff. Qed.
+Print Assumptions C12_module_iff.
+
+Theorem C12_module_valid : forall e s, 0 < length (esite e) ->
+  occurs_once (esite e) s -> occurs_once (rc_codes (esite e)) s ->
+  is_valid (C RModule e (module_structure e)) s true = true ->
+  exists O5 T O3,
+    observe (C RModule e (module_structure e)) s = (true, Some O5, Some O3, Some (O5 ++ T), Some (O5 ++ T)) /\
+    observe (C RModule e (module_structure e)) (rc s) =
+      (true, Some (rc O3), Some (rc O5), Some (rc O3 ++ rc T), Some (rc O3 ++ rc T)).
+Proof. exact strand_module_valid. Qed.
+Print Assumptions C12_module_valid.
+
+(* the same for the generic vector class: overhangs exchanged and reverse-complemented, backbone
+   and placeholder bodies reverse-complemented *)
+Theorem C12_vector_iff : forall e s, 0 < length (esite e) ->
+  occurs_once (esite e) s -> occurs_once (rc_codes (esite e)) s ->
+  is_valid (C RVector e (vector_structure e)) (rc s) true = is_valid (C RVector e (vector_structure e)) s true.
+Proof. exact strand_vector_iff. Qed.
+Print Assumptions C12_vector_iff.
+
+Theorem C12_vector_valid : forall e s, 0 < length (esite e) ->
+  occurs_once (esite e) s -> occurs_once (rc_codes (esite e)) s ->
+  is_valid (C RVector e (vector_structure e)) s true = true ->
+  exists Oup Body Odn PH,
+    observe (C RVector e (vector_structure e)) s = (true, Some Oup, Some Odn, Some (Oup ++ Body), Some (Odn ++ PH)) /\
+    observe (C RVector e (vector_structure e)) (rc s) =
+      (true, Some (rc Odn), Some (rc Oup), Some (rc Odn ++ rc Body), Some (rc Oup ++ rc PH)).
+Proof. exact strand_vector_valid. Qed.
+Print Assumptions C12_vector_valid.
+
+(* END TO END, from the raw plasmids: for ANY enzyme, a vector plasmid and any number of module
+   plasmids of the formal definition (two sites once each), if the modules chain and the overhang
+   sets of both strands are clash-free, then vector.assemble on the plasmids (each read from any
+   origin, any order) and on their REVERSE COMPLEMENTS (each read from any other origin, any other
+   origins k') both succeed, the second with the modules in the opposite order, and the second
+   product is, up to the letter case of the junction overhangs and up to the origin, the reverse
+   complement of the first *)
+Theorem C12_end_to_end : forall e v kv kv' (l l' : list (mplasmid * Z)) (cs : list smod),
+  0 < length (esite e) -> vplasmid_ok e v -> Forall (mplasmid_ok e) (map fst l) ->
+  map fst l' = map fst l ->
+  let ms := number 0 (map fst l) in
+  Permutation.Permutation ms cs ->
+  path (okey (qOdn v)) (map keys_of cs) (okey (qOup v)) ->
+  okey (qOup v) <> okey (qOdn v) ->
+  Forall (fun m => okey (so5 m) <> okey (qOup v)) cs ->
+  Forall (fun m => okey (so3 m) <> okey (qOdn v)) cs ->
+  AssemblyLemmas.clash_free rc_codes (map tmod_of ms) ->
+  AssemblyLemmas.clash_free rc_codes (map tmod_of (map rc_smod ms)) ->
+  let w := concat (map frag cs) ++ (qOup v ++ vbackbone v) in
+  let w' := concat (map frag_rc (rev cs)) ++ (rc (qOdn v) ++ rc (vbackbone v)) in
+  assemble_raw (generic_cls RVector e) (rotr kv (vword v)) (map (marg e) l) = Assembly.Product w (map sid cs) [] /\
+  assemble_raw (generic_cls RVector e) (rotr kv' (rc (vword v))) (map (marg_rc e) l') = Assembly.Product w' (map sid (rev cs)) [] /\
+  same_codes w' (rotl (Z.of_nat (length (rc (vbackbone v)))) (rc w)).
+Proof. exact end_to_end_strand. Qed.
+Print Assumptions C12_end_to_end.
 
 (* reverse complement commutes with rotation (C14) *)
 Theorem C12_rc_rot : forall k s, rc (rotr k s) = rotl k (rc s).
